@@ -7,7 +7,8 @@ THEOREMS = ["Pomerol.Properties.C13." + t for t in (
     "exchange_first_pair", "alias_value", "lookup_value_any_history", "listed_elements_evaluable_after_bulk",
     "stale_nontrivial_was_wrong", "alias_table_entries", "exchange_second_pair", "exchange_second_pair_matsubara")]
 RULE = ("a case = random model (2-4 modes) and a random history of fill / prepareAll / computeAll(split|nosplit) / lookup / "
-        "element prepare / element compute / list / evaluate-all calls over random quadruples (incl. repeated and exchanged "
+        "element prepare / element compute / list / evaluate-all calls, bulk computations that discard the terms followed by the same "
+        "request again, over random quadruples (incl. repeated and exchanged "
         "ones); after every call the complete maps (keys, owner element, alias permutation, status) are compared with the model, "
         "every evaluation with a two-particle Green's function constructed directly for that quadruple, and the exchange "
         "relations between directly computed components with each other; non-trivial = distinct history with at least one "
